@@ -498,7 +498,7 @@ class Keyvalues:
                         # Special function - if the last prop was a
                         # keyvalue with this name, replace it instead.
                         if (
-                            can_flag_replace and
+                            can_flag_replace and cur_block_contents and
                             cur_block_contents[-1]._real_name == token_value and
                             cur_block_contents[-1].has_children()
                         ):
@@ -533,7 +533,7 @@ class Keyvalues:
                             # Special function - if the last prop was a
                             # keyvalue with this name, replace it instead.
                             if (
-                                can_flag_replace and
+                                can_flag_replace and cur_block_contents and
                                 cur_block_contents[-1]._real_name == token_value and
                                 isinstance(cur_block_contents[-1].value, str)
                             ):
@@ -592,9 +592,10 @@ class Keyvalues:
                         'An extra closing bracket was added which would '
                         'close the outermost level.',
                     ) from None
-                if single_block and cur_block is root:
+                if single_block and cur_block is root and root._value:
                     # Single-block mode - we just exited out of the main block.
-                    # Return our child.
+                    # Return our child. If the block was disabled by a flag,
+                    # there is no child yet, so keep looking.
                     return root[0]
                 # We know this isn't a leaf KV, we made it earlier.
                 assert not isinstance(cur_block._value, str)
